@@ -15,7 +15,7 @@ RULE = ("dumps built from ILOG bytes + every subset/ordering of the six buffer h
         "parse_dump_data compares the output with the model built from the C14/C15 models; wrappers over the names "
         "dump.parse_ilog_data / dump.parse_trace_data log the exact slices handed down and assert they are, in order, a "
         "partition of the input (ILOG first, then traces).  Non-trivial: at least one recognised header; distinct = bytes.")
-ASSUMPTIONS = ["each buffer name occurs at most once as a recognised header", "see C14/C15 assumptions for the region decoders"]
+ASSUMPTIONS = ["when a buffer name occurs more than once its first occurrence is the recognised header", "see C14/C15 assumptions for the region decoders"]
 CUR = {"table": None, "strings": None, "slices": None}
 
 
@@ -83,7 +83,8 @@ def plan(tier, seed):
 
 def minimums(tier):
     return {"dump.calls_checked": 3000, "dump.partitions_checked": 2500, "file.format_checks": 1500, "script.runs": 10,
-            "workload.header_at_0": 30, "workload.no_headers": 100, "workload.six_headers": 50}
+            "workload.header_at_0": 30, "workload.no_headers": 100, "workload.six_headers": 50,
+            "workload.repeated_name": 100}
 
 
 def drive(ctx, dump, rng, hdr, sf, table, strings, root, tag, k):
@@ -96,9 +97,15 @@ def drive(ctx, dump, rng, hdr, sf, table, strings, root, tag, k):
         ctx.count("workload.six_headers")
     if len(regs) > 1 and regs[0][2] == 0:
         ctx.count("workload.header_at_0")
+    if any(d.count(im.HDR_START + n.encode()) > 1 for n in im.BUFFER_NAMES):
+        ctx.count("workload.repeated_name")
     ctx.current = {"data": d[:800], "regions": regs}
     ctx.case(tag + d.hex(), len(regs) > 1, sample={"regions": regs, "len": len(d)} if k < 2 else None)
-    base = dump.parse_dump_data(memoryview(d), hdr, sf)
+    try:
+        base = dump.parse_dump_data(memoryview(d), hdr, sf)
+    except Exception as e:
+        ctx.violation("C17/decoder-raised/" + type(e).__name__, "parse_dump_data raised %r" % (e,), data=d[:800])
+        return d
     if rng.random() < 0.1:
         dump.parse_dump_data(memoryview(b""), hdr, sf)
     # the same dump written as a hex-dump text file, both formats
@@ -112,7 +119,11 @@ def drive(ctx, dump, rng, hdr, sf, table, strings, root, tag, k):
             with open(path, "w") as f:
                 f.write("\n".join(lines) + "\n")
             ctx.count("file.format_checks")
-            got = dump.parse_dump_file(path, hdr, sf)
+            try:
+                got = dump.parse_dump_file(path, hdr, sf)
+            except Exception as e:
+                ctx.violation("C17/decoder-raised/" + type(e).__name__, "parse_dump_file raised %r" % (e,), data=d[:800])
+                continue
             if list(got) != list(base):
                 ctx.violation("C17/file-vs-bytes/" + fmt, "parse_dump_file on the %s rendering of %d bytes gives %d lines, "
                               "parse_dump_data on the bytes gives %d" % (fmt, len(d), len(got), len(base)), data=d[:800])
